@@ -14,3 +14,12 @@ Theorem C05_equiv_certificate : forall (Q1 Q2 : Type) (E1 : EqDec Q1) (E2 : EqDe
   (A : enfa Q1) (B : enfa Q2) (n : nat), enfa_equiv A B n = Some true -> lang_eq A B.
 Proof. exact (@enfa_equiv_sound). Qed.
 Print Assumptions C05_equiv_certificate.
+
+(* tie to the source: operator spellings regenerated from regular_expression/regex_objects.py on every build *)
+From PFL Require Import Gen.PyConst Proofs.GenTieC05.
+Theorem C05_operator_spellings_from_source :
+  re_UNION_SYMBOLS = ((124%N :: nil) :: (43%N :: nil) :: nil) /\ re_CONCATENATION_SYMBOLS = ((46%N :: nil) :: nil) /\
+  re_KLEENE_STAR_SYMBOLS = ((42%N :: nil) :: nil) /\ re_PARENTHESIS = ((40%N :: nil) :: (41%N :: nil) :: nil) /\
+  re_EPSILON_SYMBOLS = ((101%N :: 112%N :: 115%N :: 105%N :: 108%N :: 111%N :: 110%N :: nil) :: (36%N :: nil) :: nil).
+Proof. exact regex_operator_spellings. Qed.
+Print Assumptions C05_operator_spellings_from_source.
